@@ -164,6 +164,39 @@ fn codec_sequences(w: &mut Out, rng: &mut Rng, thorough: bool) {
     }
 }
 
+/// Every message the codec WRITES it also READS back — at every payload size up to the one bound the writer enforces. Texts
+/// and literals of 64 KiB, 1 MiB and just below 16 MiB for every kind that can carry them (a reader with a tighter per-kind
+/// limit than the writer makes well-formed frames unreadable — seed C20-J).
+fn codec_large_payloads(w: &mut Out, rng: &mut Rng, thorough: bool) {
+    let sizes: &[usize] = if thorough { &[65_000, 65_514, 65_515, 65_520, 65_521, 65_536, 66_000, 200_000, 1_000_000, 16 * 1024 * 1024 - 64] }
+                          else { &[65_000, 65_520, 65_536, 66_000, 1_000_000] };
+    for &n in sizes {
+        let text: String = (0..n).map(|i| (b'a' + (i % 26) as u8) as char).collect();
+        let mut h = [0u8; 32];
+        h.copy_from_slice(&rng.bytes(32));
+        let msgs = vec![
+            Message::Error { code: 7, message: text.clone() },
+            Message::Ack { file_id: 9, success: false, message: Some(text.clone()) },
+            Message::DeltaData { file_id: 3, delta: Delta { block_size: 2048, source_size: n as u64, basis_size: 0, ops: vec![DeltaOp::Literal(text.clone().into_bytes())], checksum: StrongHash::from_bytes(h) } },
+        ];
+        for m in msgs {
+            let kind = desc_msg(&m).split('(').next().unwrap_or("").to_string();
+            let mut framed = Vec::new();
+            let wr = guarded(|| Codec::new().write_message(&mut framed, &m));
+            w.count("codec-large-payload");
+            if let Ok(Ok(())) = wr {
+                let mut cur = Cursor::new(&framed);
+                let rd = guarded(|| Codec::new().read_message(&mut cur));
+                if !matches!(&rd, Ok(Ok(m2)) if *m2 == m) {
+                    let l = w.case("writemsg -", "LARGE", true);
+                    let what = match &rd { Ok(Ok(_)) => "a different value".to_string(), Ok(Err(e)) => format!("error: {e}"), Err(()) => "PANIC".into() };
+                    w.fail(l, "codec-roundtrip", &format!("the codec wrote a {kind} frame with a {n}-byte text/literal ({} payload bytes) and cannot read it back: {what}", framed.len() - 12));
+                }
+            }
+        }
+    }
+}
+
 pub fn run(w: &mut Out, thorough: bool, seed: u64) {
     w.rule = "headers: all 7 types × lengths {0,1,16Mi,16Mi+1,2^32-1,random} × flags, plus every single-byte mutation class of valid headers and random 12-byte strings; \
 messages: generated values of all seven kinds (fields at 0/1/max/random; empty and large signatures/deltas; strings incl. multi-byte UTF-8 and NUL), encoded by the real code, \
@@ -173,6 +206,7 @@ Non-trivial: payload ≥ 12 bytes; distinct = distinct query lines."
         .into();
     let mut rng = Rng::new(seed ^ 0xC20);
     codec_sequences(w, &mut rng, thorough);
+    codec_large_payloads(w, &mut rng, thorough);
     let types = [MessageType::SignatureRequest, MessageType::SignatureResponse, MessageType::DeltaData, MessageType::Ack, MessageType::Error, MessageType::Ping, MessageType::Pong];
     // ---- headers
     for t in types {
